@@ -872,6 +872,39 @@ pub fn pk_teddy<P: PackedCase, const LEN: usize, const OFF: usize, const W: usiz
     core::mem::forget(srch);
 }
 
+/// C06/C15: the candidate-verification primitives of every packed variant
+/// (`is_prefix` for Rabin-Karp, `Pattern::is_prefix_raw` for Teddy; both end in
+/// the hand-written `is_equal_raw`), on an exactly sized haystack object of HN
+/// bytes and an exactly sized needle of PN bytes, from a symbolic offset:
+/// result = bytewise prefix test, and every load stays inside the two objects.
+#[cfg(kani)]
+pub fn pk_prim_nc<const HN: usize, const PN: usize>() -> (bool, usize) {
+    let hay: [u8; HN] = any();
+    let needle: [u8; PN] = any();
+    let from: usize = any();
+    assume(from <= HN);
+    let mut want = PN <= HN - from;
+    let mut i = 0;
+    while i < PN {
+        if want && hay[from + i] != needle[i] {
+            want = false;
+        }
+        i += 1;
+    }
+    let g1 = aho_corasick::verif::packed::pattern::prim_is_prefix(&hay[..], from, &needle[..]);
+    let g2 = aho_corasick::verif::packed::pattern::prim_is_prefix_raw(&hay[..], from, &needle[..]);
+    assert!(g1 == want, "is_prefix differs from the bytewise prefix test");
+    assert!(g2 == want, "Pattern::is_prefix_raw differs from the bytewise prefix test");
+    (want, from)
+}
+
+#[cfg(kani)]
+pub fn pk_prim<const HN: usize, const PN: usize>() {
+    let (want, from) = pk_prim_nc::<HN, PN>();
+    cover!(want && from + PN == HN, "a needle ending flush with the haystack");
+    cover!(!want && PN <= HN - from, "a mismatch");
+}
+
 // ---------------------------------------------------------------------------
 // C07/C08/C18: stream search
 
